@@ -5,9 +5,10 @@ Oracle: closed-form Taylor coefficients of exp(a z), sin/cos(a z), 1/(b - z), lo
 (nverif.oracle.jets) for sums, products and entire-outer compositions.  The distance d from z0 to
 the nearest singularity is known by construction (poles / branch points are placed).
 
-Development switch (never set by ./check):  NVERIF_C17_EXPLORE=1 turns the three defect classes
-already known on the pinned tree (F7 zero-estimate garbage coefficient, F12 default call reported
-failed, circle beyond the singularity) into counted classes so that the rest can be calibrated.
+Development switch (never set by ./check):  NVERIF_C17_EXPLORE=<comma list of beyond,f7,nominal | 1>
+sets defect classes seen on the pinned tree aside so that the rest can be calibrated: "beyond" (a
+circle beyond the nearest singularity; the case is skipped the way a known-finding entry would),
+"f7" (isolated zero-estimate garbage coefficient), "nominal" (default call reported failed).
 """
 import math
 import os
@@ -26,7 +27,8 @@ SAFETY_MAXF = 1.5     # 256-point sampling of max|f| on the final circle, times 
 REL_DERIV = 4 * EPS   # derivative() == taylor() * k!  (relative)
 EST_ZERO = 100.0      # an estimate below EST_ZERO * eps*max|f|/R^k is "zero" (finding class only)
 DEFAULT_R, DEFAULT_RATIO, DEFAULT_EXTRAP, DEFAULT_MAXITER = 0.0059, 1.6, 3, 30
-EXPLORE = bool(os.environ.get('NVERIF_C17_EXPLORE'))
+_FLAG = os.environ.get('NVERIF_C17_EXPLORE', '')
+SKIP = {'beyond', 'f7', 'nominal'} if _FLAG in ('1', 'all') else set(t for t in _FLAG.split(',') if t)
 
 N_SMALL = [1, 2, 3, 4, 5, 6, 7, 8, 9, 10, 12, 13, 14, 15, 16, 18, 20]
 N_LARGE = [21, 25, 26, 28, 30, 32, 40, 48, 51, 52, 53, 55, 60, 64, 70, 80, 90, 100]
@@ -323,7 +325,9 @@ class C17(Prop):
                 if failed or degenerate:
                     changes = _direction_changes(radii)
                     beyond = max(radii) >= d * (1 - 1e-9)
-                    if not EXPLORE:
+                    if beyond and 'beyond' in SKIP:
+                        ctx.skip('dev flag: %s after a circle beyond the singularity (known class)' % status)
+                    if 'nominal' not in SKIP:
                         raise Violation('never-failed' if failed else 'never-degenerate',
                                         '%s: failed=%s degenerate=%s after %d circles, final radius %.4g, '
                                         'largest circle %.4g, %d direction change(s) of the radius search '
@@ -371,9 +375,12 @@ class C17(Prop):
             if i in bad:
                 est_zero = bool(e <= EST_ZERO * floor)
                 garbage = bool(err >= 0.5 * abs(ck))
-                if EXPLORE and (beyond or (garbage and isolated)):
-                    ctx.count('EXPLORE: %s' % ('beyond-singularity inaccuracy' if beyond else
-                                               'F7 garbage k/m=%s estimate_zero=%s' % (_k_over_m(k, m), est_zero)))
+                if beyond and 'beyond' in SKIP:
+                    # stands in for a known-finding entry {"clause": "coef-accuracy",
+                    # "beyond_singularity": true}: the case is set aside like the engine does
+                    ctx.skip('dev flag: beyond-singularity inaccuracy (known class)')
+                if 'f7' in SKIP and garbage and isolated and not beyond:
+                    ctx.count('EXPLORE: F7 garbage k/m=%s estimate_zero=%s' % (_k_over_m(k, m), est_zero))
                     continue
                 raise Violation(
                     'coef-accuracy',
@@ -385,9 +392,15 @@ class C17(Prop):
                     k=k, m=m, err=err, estimate=e, floor=floor, estimate_zero=est_zero,
                     k_over_m=_k_over_m(k, m), beyond_singularity=beyond, garbage=garbage,
                     coef_is_zero=bool(coefs[k] == 0), isolated=isolated, n_bad=len(bad))
-            if EXPLORE and beyond:
-                continue
             summ = dict(call=desc, k=k, err=err, estimate=e, floor=floor)
+            if beyond:      # near-misses of the beyond-singularity class are tracked apart
+                ctx.track('err/(K*est + kappa*floor) [some circle beyond the singularity]', ratio, summ)
+                continue
+            if os.environ.get('NVERIF_C17_GRID'):
+                for K_ in (30.0, 100.0):
+                    for ka_ in (1e1, 1e2, 1e3, 1e4, 1e5):
+                        t_ = K_ * e + ka_ * floor
+                        ctx.track('TMP K=%g kappa=%g' % (K_, ka_), err / t_ if t_ > 0 else 0.0, summ)
             if K_EST * e >= KAPPA * floor:
                 ctx.track('err/estimate (K*est >= kappa*floor)', err / e, summ)
             elif floor > 0:
